@@ -109,8 +109,9 @@ type caseT struct {
 	rowID int
 }
 
-var reBad = regexp.MustCompile(`<<"BAD", (\d+), "([^"]*)", "([^"]*)", "([^"]*)", "([^"]*)">>`)
-var reSpecDiff = regexp.MustCompile(`<<"SPECDIFF", (\d+), "(in|out)">>`)
+var reBad = regexp.MustCompile(`"BAD\|(\d+)\|([^|"]*)\|([^|"]*)\|([^|"]*)\|([^|"]*)\|"`)
+var reChunk = regexp.MustCompile(`"CHUNK\|(\d+)\|(\d+)\|(\d+)\|"`)
+var reSpecDiff = regexp.MustCompile(`"SPECDIFF\|(\d+)\|(in|out)\|"`)
 
 type checker struct {
 	rep          *mbt.Report
@@ -215,6 +216,11 @@ func (c *checker) judge(ins []input, label string) {
 		}
 		if cs.lib.problem != "" && cs.lib.out == "" {
 			sig := fmt.Sprintf("C10|%s|%s|%s", q.kind, formName(il), cs.lib.problem)
+			if q.kind == "ppc_fp128" && strings.HasPrefix(cs.lib.problem, "panic") {
+				if s := classifyPPCPanic(cs.inR.bits); s != "" {
+					sig = s
+				}
+			}
 			c.fail(sig, fmt.Sprintf("%s %s (LLVM reads 0x%s): %s: %s", q.kind, q.lit, cs.inR.bits, cs.lib.problem, mbt.Truncate(cs.lib.detail, 200)), cs)
 			continue
 		}
@@ -263,13 +269,23 @@ func (c *checker) judge(ins []input, label string) {
 		defer t.Cleanup()
 	}
 	rep.AddTLC(t)
-	if t.Distinct != int64(3*nch+1) {
-		mbt.Infra("FloatLitTrace judged %d chunks of %d (%s)\n%s", (t.Distinct-1)/3, nch, label, tail(t.Output, 2000))
+	if t.Distinct != int64(3*nch+1) || len(t.Violated) > 0 {
+		mbt.Infra("FloatLitTrace judged %d chunks of %d, violated %v (%s)\n%s", (t.Distinct-1)/3, nch, t.Violated, label, tail(t.Output, 2000))
 	}
-	for _, v := range t.Violated {
-		if v != "AllPreserved" {
-			mbt.Infra("FloatLitTrace: unexpected violation %s", v)
+	judged, chunkBad := 0, 0
+	chunkSeen := map[string]bool{}
+	for _, m := range reChunk.FindAllStringSubmatch(t.Output, -1) {
+		if chunkSeen[m[1]] {
+			continue
 		}
+		chunkSeen[m[1]] = true
+		n, _ := strconv.Atoi(m[2])
+		b, _ := strconv.Atoi(m[3])
+		judged += n
+		chunkBad += b
+	}
+	if judged != len(rows) || len(chunkSeen) != nch {
+		mbt.Infra("FloatLitTrace judged %d rows of %d in %d chunks of %d (%s)", judged, len(rows), len(chunkSeen), nch, label)
 	}
 	rep.TracesValidated += len(rows)
 	for _, m := range reSpecDiff.FindAllStringSubmatch(t.Output, -1) {
@@ -304,8 +320,8 @@ func (c *checker) judge(ins []input, label string) {
 		sig, what := classify(cs, m[2], m[3], m[4], m[5])
 		c.fail(sig, what, cs)
 	}
-	if (len(t.Violated) > 0) != (nbad > 0) {
-		mbt.Infra("FloatLitTrace: %d BAD lines but violated=%v", nbad, t.Violated)
+	if nbad != chunkBad {
+		mbt.Infra("FloatLitTrace: %d BAD lines but the chunks count %d failing rows", nbad, chunkBad)
 	}
 	fmt.Printf("  [%s] inputs=%d judged=%d bad=%d  llvm-in %.1fs  library %.1fs  llvm-out %.1fs  TLC %.1fs\n",
 		label, len(ins), len(rows), nbad, tLLVM1.Seconds(), tLib.Seconds(), tLLVM2.Seconds(), time.Since(t3).Seconds())
@@ -361,7 +377,11 @@ func Run(tier, replay string) {
 
 	// (S)+(G): reference functions checked by TLC on all half patterns and the boundary sets;
 	// the same run writes the vectors.
-	t := mbt.MustTLC(mbt.TLCOpts{Spec: "FloatLit", Cfg: "FloatLit.cfg", Workers: 8, Timeout: 20 * time.Minute})
+	consts := map[string]string{}
+	if tier == "thorough" {
+		consts["Walk"] = "TRUE" // boundary mantissas also include every single-bit pattern
+	}
+	t := mbt.MustTLC(mbt.TLCOpts{Spec: "FloatLit", Cfg: "FloatLit.cfg", Consts: consts, Workers: 8, Timeout: 20 * time.Minute})
 	if len(t.Violated) > 0 {
 		mbt.Infra("reference functions of FloatLit.tla violate %v: specification error\n%s", t.Violated, tail(t.Output, 3000))
 	}
@@ -377,22 +397,36 @@ func Run(tier, replay string) {
 	if len(ti.Violated) != 1 || ti.Violated[0] != "Preserved" {
 		mbt.Infra("FloatLitImpl.cfg: expected Preserved to be violated on the as-implemented model, got %v", ti.Violated)
 	}
+	fmt.Printf("  FloatLitImpl.cfg: Preserved violated on the as-implemented model as expected, %.1fs\n", ti.Wall.Seconds())
 	ti.Cleanup()
 	nHalf := 0
+	predicted := map[string]bool{}
 	for _, v := range vectors {
 		if v.q.kind == "half" && v.tag == "canon" {
 			nHalf++
+			if v.impl != v.want {
+				predicted[v.want] = true
+			}
 		}
 		if v.tag == "canon" {
 			rep.Extra["patterns_"+v.q.kind] = inc(rep.Extra["patterns_"+v.q.kind])
 		}
 	}
 	c.judge(vectors, "spec-vectors")
+	rep.Extra["half_patterns_changed"] = len(c.changedHalf)
+	rep.Extra["half_patterns_changed_predicted_by_as_implemented_model"] = len(predicted)
+	same := len(predicted) == len(c.changedHalf)
+	for k := range predicted {
+		same = same && c.changedHalf[k]
+	}
+	if !same {
+		rep.Note("the half patterns that change (%d) are not the ones the as-implemented model of FloatLit.tla predicts (%d): the model has drifted from the code", len(c.changedHalf), len(predicted))
+	}
 
 	// (T): seeded random patterns and decimal inputs
 	nRand, nDec := 1500, 1500
 	if tier == "thorough" {
-		nRand, nDec = 20000, 12000
+		nRand, nDec = 30000, 15000
 	}
 	c.judge(randomPatterns(rng, nRand), "random-patterns")
 	c.judge(decimalInputs(rng, nDec), "decimal-inputs")
@@ -418,14 +452,13 @@ func (c *checker) finish(halfExhaustive bool) {
 	rep.Extra["printed_decimal_by_kind"] = c.printedDec
 	rep.Extra["printed_hex_by_kind"] = c.printedHex
 	rep.Extra["inputs_whose_bits_changed_by_kind"] = c.changed
-	rep.Extra["half_patterns_changed"] = len(c.changedHalf)
 	rep.Extra["spec_vectors_compared_with_llvm"] = c.specChecked
 	rep.Extra["invalid_spellings_rejected_by_llvm_as_the_spec_says"] = c.invalidOK
 	rep.Extra["inputs_rejected_by_llvm_(outside_quantifier)"] = c.discardedIn
 	rep.Extra["llvm_spawns"] = spawns
 	rep.Extra["failing_cases_by_signature"] = c.sigCount
-	rep.Extra["deviations_as_modelled_(AsImplemented)"] = c.asModelled
-	rep.Extra["deviations_not_modelled"] = c.notModelled
+	rep.Extra["spec_vector_deviations_equal_to_the_AsImplemented_model"] = c.asModelled
+	rep.Extra["spec_vector_deviations_not_modelled_(ppc_fp128_pair_arithmetic)"] = c.notModelled
 	if len(c.extraDevs) > 0 {
 		sort.Strings(c.extraDevs)
 		rep.Note("short spellings outside the property's list (LLVM accepts them; not judged): %d are not reproduced by the library: %s", len(c.extraDevs), mbt.Truncate(strings.Join(c.extraDevs, "; "), 600))
